@@ -638,14 +638,19 @@ ASMJIT_FAVOR_SPEED Error Assembler::_emit(InstId inst_id, const Operand_& o0, co
     InstDB::InstFlags inst_flags = inst_info->flags();
 
     // LOCK, XACQUIRE, and XRELEASE prefixes.
-    if (Support::test(options, InstOptions::kX86_Lock)) {
+    //
+    // XACQUIRE and XRELEASE accompany LOCK, except when the instruction is not lockable (XRELEASE MOV), in which case
+    // the hint is used alone - LOCK would make such instruction undefined.
+    if (Support::test(options, InstOptions::kX86_Lock | InstOptions::kX86_XAcquire | InstOptions::kX86_XRelease)) {
+      bool is_lockable = Support::test(inst_flags, InstDB::InstFlags::kLock);
+      bool has_lock = Support::test(options, InstOptions::kX86_Lock);
       bool is_xacq_xrel = Support::test(options, InstOptions::kX86_XAcquire | InstOptions::kX86_XRelease);
 
-      if (ASMJIT_UNLIKELY(!Support::test(inst_flags, InstDB::InstFlags::kLock) && !is_xacq_xrel)) {
+      if (ASMJIT_UNLIKELY(has_lock && !is_lockable)) {
         goto InvalidLockPrefix;
       }
 
-      if (is_xacq_xrel) {
+      if (is_xacq_xrel && (has_lock || !is_lockable)) {
         if (ASMJIT_UNLIKELY(Support::test(options, InstOptions::kX86_XAcquire) && !Support::test(inst_flags, InstDB::InstFlags::kXAcquire))) {
           goto InvalidXAcquirePrefix;
         }
@@ -657,7 +662,7 @@ ASMJIT_FAVOR_SPEED Error Assembler::_emit(InstId inst_id, const Operand_& o0, co
         writer.emit8(Support::test(options, InstOptions::kX86_XAcquire) ? 0xF2u : 0xF3u);
       }
 
-      writer.emit8(0xF0);
+      writer.emit8_if(0xF0, has_lock);
     }
 
     // REP and REPNE prefixes.
